@@ -245,3 +245,15 @@ Theorem C05_isDup_strict : forall s sg wnd,
   (frActive s = true -> frFirst s = sndUna s /\ sndUna s <> sndNxt s) -> isDup s sg wnd = isDupStrict s sg wnd.
 Proof. exact isDup_strict. Qed.
 Print Assumptions C05_isDup_strict.
+
+(* the congestion state a completed active handshake hands to the connection (Proofs/TcpEstP.v;
+   compared with the implementation's first snapshot in every lock-step trace): initial window of
+   10 segments, nothing in flight, timer off, RTO 1 s *)
+From NP Require Model.TcpHs Model.TcpEst Proofs.TcpEstP.
+
+Theorem C05_initial_window_after_handshake : forall iss irs peerWnd o stackSack rb sb linkMtu iphdr t,
+  is_u32 iss ->
+  TcpEst.active_established iss irs peerWnd o stackSack rb sb linkMtu iphdr = Some t ->
+  cwnd (SN t) = 10 /\ outstanding (SN t) = 0 /\ tstate (SN t) = tDisabled /\ rto (SN t) = 1000000000.
+Proof. exact TcpEstP.active_established_cc. Qed.
+Print Assumptions C05_initial_window_after_handshake.
